@@ -23,16 +23,18 @@ PFAIL_ROUTE = [
     ("ForceQueuingTag task ran on the scheduling caller", "C47"),
 ]
 
-# rejected trace event -> property whose ledger rule rejected it
+# rejected trace event -> properties whose theorems rest on the ledger rule that rejected it
 EVENT_ROUTE = [
-    (r"^T \d+ begin ", "C01"),
-    (r"^T \d+ h pool\.dtor\.end|^T \d+ ret pooldtor", "C01"),
-    (r"^T \d+ h pool\.count|^T \d+ h pool\.resize\.end|^T \d+ quiesce", "C08"),
-    (r"^T \d+ h ts\.zero|^T \d+ ret wait|^T \d+ h ts\.dec|^T \d+ h ts\.inc", "C02"),
-    (r"^T \d+ h ts\.inline|^T \d+ h ts\.guard|^T \d+ ret cancel", "C04"),
-    (r"^T \d+ h ts\.capture|^T \d+ h ts\.rethrow", "C05"),
-    (r"^T \d+ h pool\.inline", "C47"),
-    (r"^T \d+ h pool\.rings|^T \d+ h pool\.push\.ring|^T \d+ h pool\.ctor", "C03"),
+    (r"^T \d+ begin ", ("C01", "C02")),
+    (r"^T \d+ h pool\.dtor\.end|^T \d+ ret pooldtor", ("C01",)),
+    (r"^T \d+ h pool\.count|^T \d+ h pool\.resize\.end|^T \d+ quiesce", ("C08",)),
+    (r"^T \d+ h pool\.push\.ring", ("C01", "C02", "C03", "C08")),
+    (r"^T \d+ h pool\.push|^T \d+ h pool\.take|^T \d+ ret sched|^T \d+ ret bulk|^T \d+ gen ", ("C01", "C02", "C08")),
+    (r"^T \d+ h ts\.zero|^T \d+ ret wait|^T \d+ h ts\.dec|^T \d+ h ts\.inc|^T \d+ end ", ("C02",)),
+    (r"^T \d+ h ts\.inline|^T \d+ h ts\.guard|^T \d+ ret cancel", ("C04",)),
+    (r"^T \d+ h ts\.capture|^T \d+ h ts\.rethrow", ("C05",)),
+    (r"^T \d+ h pool\.inline", ("C47",)),
+    (r"^T \d+ h pool\.rings|^T \d+ h pool\.ctor", ("C03",)),
 ]
 
 
@@ -44,10 +46,10 @@ def route_pfail(sig):
 
 
 def route_event(line):
-    for rx, pid in EVENT_ROUTE:
+    for rx, pids in EVENT_ROUTE:
         if re.search(rx, line):
-            return pid
-    return "C01"
+            return pids
+    return ("C01",)
 
 
 RULE = ("random programs on the real ThreadPool (0..3 threads, load multipliers 1/2/32, signalling or polling wake) with "
@@ -69,7 +71,9 @@ def run_sched(ctx, replay, pid, module, theorems, flavours):
     else:
         vlib.lake_build(["dvdriver"])
     src = os.path.join(vlib.HARNESS, "conc", "c01_sched.cpp")
-    exe, log = vlib.build_dsched_harness(src, with_lib=True)
+    # the library's own tuning knob: workers park after a short spin, so that parked-worker paths (proactive
+    # wake, steal rings) are reached within a few hundred scheduling steps
+    exe, log = vlib.build_dsched_harness(src, with_lib=True, extra_flags=("-DDISPENSO_TUNE_FIXED_SPIN_ITERS=72",))
     if not exe:
         ctx.broken.append(("harness:c01_sched", "does not compile against the current tree: " + log[-1500:]))
         return
@@ -94,11 +98,11 @@ def run_sched(ctx, replay, pid, module, theorems, flavours):
                     k = route_pfail(sig) + ": " + sig
                     ctx.notes["failures_routed_to_other_properties"][k] = ctx.notes["failures_routed_to_other_properties"].get(k, 0) + 1
             for m in res["mismatches"]:
-                if route_event(m["line"]) == pid:
+                if pid in route_event(m["line"]):
                     mine["mismatches"].append(m)
                 else:
                     ctx.notes.setdefault("failures_routed_to_other_properties", {})
-                    k = route_event(m["line"]) + ": ledger rejected " + " ".join(m["line"].split()[2:4])
+                    k = "/".join(route_event(m["line"])) + ": ledger rejected " + " ".join(m["line"].split()[2:4])
                     ctx.notes["failures_routed_to_other_properties"][k] = ctx.notes["failures_routed_to_other_properties"].get(k, 0) + 1
             vlib.standard_verdict(ctx, "sched", mine, args, "conc/c01_sched.cpp")
             # a run that got stuck ends the process: continue after the stuck scenario
